@@ -92,7 +92,7 @@ Op(name) ==
   /\ stack # <<>>
   /\ LET top == stack[Len(stack)] IN
        \/ name = "render" /\ top.kind \in {"Fullscreen", "CursorAware"}
-       \/ name \in {"request", "trigger", "sched"} /\ top.kind = "Input"
+       \/ name \in {"request", "request_key", "request_paste", "trigger", "sched"} /\ top.kind = "Input"
   /\ hist' = Append(hist, [k |-> "op", name |-> name])
   /\ UNCHANGED <<res, stack, nextInput, lastOk>>
 
@@ -109,7 +109,7 @@ ExitTop(how) ==
 Next ==
   /\ steps < MaxSteps /\ steps' = steps + 1
   /\ \/ \E kind \in Kinds : \E o \in Opts(kind) : Enter(kind, o)
-     \/ \E name \in {"render", "request", "trigger", "sched"} : Op(name)
+     \/ \E name \in {"render", "request", "request_key", "request_paste", "trigger", "sched"} : Op(name)
      \/ ExitTop("exit")
      \/ ExitTop("raise")          \* an exception leaves the innermost context; the next step continues unwinding or not
 Spec == Init /\ [][Next]_vars
